@@ -34,13 +34,13 @@ CLAIMS = {
             "lock-state dataflow + DOM/MPT rules + unit typing + interval analysis over clang AST/CFG", "3 C11"),
     "C15": ("parser-cursor abstract interpretation (bytes known non-NUL at the cursor, join = min) over readToken/skipSpace/stripComments: no advance or offset read beyond what dominating tests establish, every tokenizer loop cycle advances; table agreement between the string reader's special bytes and the writer's escapes with round-trip of each escape; serialiser/parser exhaustiveness over tags and token kinds; agreement of the bytes counted as line breaks with the bytes that stop the error-column walk, stripComments output bound, string-mode typestate and agreement of its literal loop with the JSON literal automaton on all 341 texts of up to 4 bytes over 4 byte classes; every byte the escape writer stops at has an emitting arm; comment scans of stripComments stop at every line-break byte; member counters that are raised and lowered have one net effect per function on all successful paths; equality of re-parsed trees in general and recursion depth are NOT decided",
             "CUR abstract interpretation + TBL/TAG table rules over clang AST/CFG", "3 C15"),
-    "C16": ("parser-cursor abstract interpretation over the XML tokenizer (bounds and per-loop progress), a save/rewind-aware progress argument for the content loop of parseElement with callee summaries, escape-table agreement between reader stop sets and writer escapes (tables read from the initialisers), stale-pointer rule for raw String buffers across reallocating calls, copy-on-write rules for element values (shared with C09), line/lineStart pairing (1 known finding), prolog test evaluated only after skipSpace(), parser state reset at the entry of parse(), no look-behind past a scan origin; Xml::Variant assignment acquires before it releases; no read of an assignment's argument after the release of the own payload; character references are inserted only after escaping; structural equality of re-parsed element trees in general is NOT decided",
+    "C16": ("parser-cursor abstract interpretation over the XML tokenizer (bounds and per-loop progress), a save/rewind-aware progress argument for the content loop of parseElement with callee summaries, escape-table agreement between reader stop sets and writer escapes (tables read from the initialisers), stale-pointer rule for raw String buffers across reallocating calls, copy-on-write rules for element values (shared with C09), line/lineStart pairing (1 known finding), prolog test evaluated only after skipSpace(), parser state reset at the entry of parse(), no look-behind past a scan origin; Xml::Variant assignment acquires before it releases; no read of an assignment's argument after the release of the own payload; character references are inserted only after escaping; text is read from the position saved before the look-ahead on every outcome; structural equality of re-parsed element trees in general is NOT decided",
             "CUR abstract interpretation + TBL/ALIAS/PAIRF rules over clang AST/CFG", "3 C16"),
     "C18": ("the bounds-safety clauses: value-set analysis (byte domain exact, signed char, casts, masks, dominating guards, return-set summaries) of every non-constant index into a constant-size table; (pointer,length) reads covered by the length guards with lock-step advance and bounded fall-through consumption in the UTF-8 decoder/validator; encoder range tests agree with the decoder's length table on representatives of every range; base64 output index bounded by the input index; each String::to<Integer> uses a C parser whose result type covers the return type, unguarded snprintf lengths have room for the longest output; the first byte of a (pointer,length) range is read only when the range is non-empty; that encoder and decoder are inverse on all code points, integer round trips and the hex/base64 values are NOT decided",
             "VSA (value sets/intervals) + PAIRF/CNT/FIN rules over clang AST/CFG", "3 C18"),
     "C19": ("failure discipline and tree confinement on File.cpp/Directory.cpp: created files are unlinked on every failing path (1 known finding for File::copy), Directory::create returns true only on mkdir success / '.'-'..' / verified existence and fails when the parent cannot be made, File::open keeps no handle on failure and maps each of the 16 flag sets to open(2) flags without O_APPEND / stray O_TRUNC / stray O_CREAT and seeks to the end exactly for appendFlag, recursive unlink calls nothing that follows links and recurses only for DT_DIR entries with the stream closed on every exit; File::size() restores the caller's position after its SEEK_END probe unless it already was the size; File::copy opens its destination create+write with O_EXCL iff failIfExists and O_TRUNC otherwise; the path algebra (simplifyPath, recomposition, getRelativePath), byte fidelity of file I/O and the file system's behaviour are NOT decided",
             "MPT/DOM/WHO rules over clang AST/CFG", "3 C19"),
-    "C20": ("parser-cursor abstract interpretation of Process::Arguments (option cursor stays inside the argument strings; 1 known finding for short-option clusters) and of the command-line splitter (bounds + progress; typestate: a quote-opened word is emitted before the next separator / return even when empty), the option/value decision table of the matched-option arms evaluated over all flag/'='/rest/next-argv combinations against getopt_long, option table walk bounds, close/zero pairing of every stored descriptor, pipe-end discipline after vfork (parent closes the child's ends, child dup2 before close before exec, null-terminated argv), reap-then-close in join/kill; prepareEnv emits one NAME=value per map entry and start()/open() size, fill, terminate and pass the pointer array; reads through the argv cursor under a strict order test; select()'s nfds exceeds every registered descriptor for all masks and descriptor orders; what the child receives, exit codes and stream contents are NOT decided",
+    "C20": ("parser-cursor abstract interpretation of Process::Arguments (option cursor stays inside the argument strings; 1 known finding for short-option clusters) and of the command-line splitter (bounds + progress; typestate: a quote-opened word is emitted before the next separator / return even when empty), the option/value decision table of the matched-option arms evaluated over all flag/'='/rest/next-argv combinations against getopt_long, option table walk bounds, close/zero pairing of every stored descriptor, pipe-end discipline after vfork (parent closes the child's ends, child dup2 before close before exec, null-terminated argv), reap-then-close in join/kill; prepareEnv emits one NAME=value per map entry and start()/open() size, fill, terminate and pass the pointer array; reads through the argv cursor under a strict order test; select()'s nfds exceeds every registered descriptor for all masks and descriptor orders; select() arguments are set up again before every call; what the child receives, exit codes and stream contents are NOT decided",
             "CUR abstract interpretation + FIN decision table + MPT/ORD rules over clang AST/CFG", "3 C20"),
     "C08": ("path and pairing rules over every Buffer member: terminator after every end update on owning paths, ownership<->capacity pairing, allocation X+1 with _capacity X, release/re-seat pairing, complete swap, rule of three, ALIAS (a source that may lie in the buffer's own storage is not read after the storage changed; 3 known findings) with a guarded self-assignment, and linear-inequality entailment (own Fourier-Motzkin over dominating guards + class invariant) that every copy/move target and terminator store lies inside the allocation; a window that swap creates (instead of handing over) gets its terminator; content equality with a reference byte queue is NOT decided",
             "MPT/PAIRF path rules + linear-inequality abstract domain over clang AST/CFG", "3 C08"),
